@@ -157,6 +157,13 @@ def parse_C(sec):
 def project(prop, op, line):
     """the part of a world output line that property `prop` is about; a difference
     outside it is another property's business"""
+    if op == "cfg" and " tlsctx:" in line:
+        # how the configuration was taken in is everybody's business
+        return repr((sorted(t for t in line.split(" | ")[0].split() if t.startswith("tlsctx:")), _project(prop, op, line)))
+    return _project(prop, op, line)
+
+
+def _project(prop, op, line):
     if line.startswith("crash") or line in ("skipped", "bad-op") or "MODEL-" in line:
         return line     # (MODEL-…: the model's own consistency flags; never equal to an implementation line)
     if op == "rewrite":
